@@ -47,7 +47,7 @@ def gen(rng):
 
 RESOLVING = {0, 1, 2, 3, 4, 5, 6, 8, 21, 22, 23, 25, 26}
 DEFERRING = {7, 9, 27}
-KINDS = ["free", "gap", "at-size", "beyond"]
+KINDS = ["free", "gap", "at-size", "beyond", "freed", "freed-samegen", "freed-xs", "freed-xs-samegen", "gen-mismatch"]
 
 
 def holder_class(G, t):
@@ -69,17 +69,44 @@ def holder_class(G, t):
     return None
 
 
-def build_file(objs):
-    """objects 1..n, then: n+1 free, n+2 gap, n+3 defined, /Size = n+4  ->  (file bytes, model entries, numbers by kind)"""
+def build_file(objs, kind="free", stale=0):
+    """objects 1..n, then: n+1 free, n+2 the victim, n+3 defined  ->  (file bytes, model entries, /Size, the dangling reference)
+
+    The ways a reference dangles (ISO 32000-1 7.3.10 with 7.5.4, 7.5.6, 7.5.8):
+      free            n+1 is a free entry of the only revision
+      gap             n+2 has no entry at all below /Size
+      at-size/beyond  numbers >= /Size
+      freed*          n+2 is defined (with a well-typed value) in the first revision and marked free by an incremental
+                      update: classic table or cross-reference stream (-xs), generation bumped or not (-samegen)
+      gen-mismatch    n+2 is in use with generation 0, the reference says generation 1
+    """
     n = len(objs)
     entries = {i + 1: Obj(o) for i, o in enumerate(objs)}
     entries[n + 1] = Free(gen=1)
     entries[n + 3] = Obj(0)
-    rev = Revision(entries, fmt="table", trailer={}, size=n + 4)
-    data, info = write_file([rev])
     model = [b"0 x"] + [b"%d " % (i + 1) + canon(o) for i, o in enumerate(objs)] + [b"%d x" % (n + 1), b"%d " % (n + 3) + canon(0)]
-    nums = {"free": n + 1, "gap": n + 2, "at-size": n + 4, "beyond": n + 7}
-    return data, model, n + 4, nums
+    if kind.startswith("freed"):
+        fmt = "stream" if "-xs" in kind else "table"
+        e1 = dict(entries)
+        e1[n + 2] = Obj(stale)
+        rev1 = Revision(e1, fmt=fmt, trailer={})
+        rev2 = Revision({n + 2: Free(gen=0 if kind.endswith("samegen") else 1)}, fmt=fmt, trailer={})
+        data, info = write_file([rev1, rev2])
+        return data, model + [b"%d x" % (n + 2)], info["revisions"][-1]["size"], Ref(n + 2, 0)
+    if kind == "gen-mismatch":
+        entries[n + 2] = Obj(stale)
+        data, info = write_file([Revision(entries, fmt="table", trailer={}, size=n + 4)])
+        return data, model + [b"%d " % (n + 2) + canon(stale)], n + 4, Ref(n + 2, 1)
+    data, info = write_file([Revision(entries, fmt="table", trailer={}, size=n + 4)])
+    num = {"free": n + 1, "gap": n + 2, "at-size": n + 4, "beyond": n + 7}[kind]
+    return data, model, n + 4, Ref(num, 0)
+
+
+def content_type(t):
+    """the type of the object a reference in a holder of type t designates"""
+    while t and t[0] in (24, 25, 26):
+        t = t[1:]
+    return t
 
 
 def check_optional(cls, rw, indirect=()):
@@ -154,8 +181,22 @@ def cases_for(rng, sidx, tier):
             G = gen(rng)
             d = G.struct(sidx, force={f["name"]: False}, extras=False)
             model = not T.required_unmodelled(G, sidx) and G.modelled([30, sidx])
-            data, mentries, size, nums = build_file(G.objs)
-            ref = Ref(nums[kind], 0)
+            # the object the reference used to designate (freed / generation mismatch): well-typed for the holder, so
+            # that a reader which wrongly follows the reference accepts it and the entry visibly reappears
+            hty = inner if holder == "field" else (inner[1:] if opt else f["ty"][1:])
+            stale = None
+            if cls == "resolving":
+                for _ in range(6):
+                    stale = G.prim(content_type(hty), 2, allow_ref=False)
+                    if isinstance(stale, Ref) or (holder == "field" and inner[0] == 21 and stale == []):
+                        stale = None
+                    if stale is not None:
+                        break
+            if stale is None:
+                stale = {"a": 1}
+                if kind == "gen-mismatch":
+                    model = False        # the reader does load the object (finding C18-e); its type is outside the model
+            data, mentries, size, ref = build_file(G.objs, kind, stale)
             planted = ref if holder == "field" else [ref]
             keyf = f["key"].encode()
             if holder != "field":
@@ -208,7 +249,9 @@ def same(a, b):
 
 
 def classify(case, impl, model):
-    return None          # C18-b and C18-c are repaired; no open class
+    if "kind:gen-mismatch" in case.tags:
+        return "C18-e"       # the generation number of a reference is ignored (resolve_ref looks the object up by number)
+    return None              # C18-b, C18-c, C18-d are repaired
 
 
 def witness_case(f, c):
@@ -218,6 +261,9 @@ def witness_case(f, c):
         c.check = check_optional("resolving", True)
     elif f["id"] in ("C18-c", "C18-d"):
         c.check = check_optional("resolving", True)
+    elif f["id"] == "C18-e":
+        c.check = check_optional("resolving", True)
+        c.tags.add("kind:gen-mismatch")
     return c
 
 
